@@ -1,3 +1,88 @@
-(** C01 - placeholder, replaced below in this session. *)
-From HK Require Import Model.Queue.
-Theorem C01_placeholder : True. Proof. exact I. Qed.
+(** C01 - an acknowledged message is durable: no loss after 202/200 (SQLite flavour).
+    A Store method = the retention-prune micro-step followed by the method's core micro-step, each a
+    committed transaction and each a [step] of the queue model; a timeline is any interleaving of the
+    micro-steps of concurrently served requests; a crash cuts the timeline (a transaction that had not
+    committed is cut away); [recovered tl k] is the queue found after restarting on the same database.
+    The handler answers only after the last micro-step of its program has committed, so an
+    acknowledgement received by a client implies that those micro-steps lie before the cut.
+    Only theorem statements; proofs are [exact] of lemmas from Proofs/QueueCrash.v. *)
+From Coq Require Import List ZArith NArith Bool.
+From HK Require Import Model.Queue Model.QueueMon Proofs.QueueBase Proofs.QueueInv Proofs.QueueInvStep
+  Proofs.QueueStep Proofs.QueueTrace Proofs.QueueCrash.
+Import ListNotations.
+Open Scope Z_scope.
+
+(** the decomposition of a method into committed micro-steps refines the method *)
+Theorem C01_method_is_prune_then_core : forall c s x o,
+  prunes x = true -> snd (step Sql c s x o) <> RBadOracle ->
+  step Sql c s x o = step Sql (no_prune c) (prune c (op_now x) (o_gone o) s) x o.
+Proof. exact method_is_prune_then_core. Qed.
+
+(** whatever the timeline and wherever the crash: the recovered queue stores every id once, every
+    message whole and in exactly one coherent state, and is an ordinary reachable state - it opens
+    and every later operation keeps the invariant *)
+Theorem C01_recovered_well_formed : forall tl k, Inv (recovered tl k) /\ state_ok (msgs (recovered tl k)).
+Proof. exact recovered_well_formed. Qed.
+
+Theorem C01_recovered_continues : forall tl k more, Inv (after Sql (recovered tl k) more).
+Proof. exact recovered_continues. Qed.
+
+(** a restart never yields a message nobody sent: every recovered message is, field for field in
+    its immutable part, the message of a successful enqueue micro-step that lies before the cut *)
+Theorem C01_nothing_unsent : forall tl k m,
+  In m (msgs (recovered tl k)) ->
+  exists pre c x o post q, firstn k tl = pre ++ (c, x, o) :: post
+    /\ enqueued_by c x o (snd (step Sql c (after Sql init pre) x o)) q /\ same_imm q m.
+Proof. exact recovered_nothing_unsent. Qed.
+
+(** a successful enqueue micro-step stores its messages ... *)
+Theorem C01_successful_enqueue_stores : forall fl c s x o s' r q,
+  Inv s -> step fl c s x o = (s', r) -> enqueued_by c x o r q -> enq_list x <> [] -> In q (msgs s').
+Proof. exact successful_enqueue_stores. Qed.
+
+(** ... and once that micro-step is before the cut, the message is in the recovered queue - unless a
+    later micro-step before the cut removed it for a documented reason (its ack, a DLQ delete, a
+    retention prune it was eligible for, a drop_oldest eviction by a stored message) *)
+Theorem C01_acked_enqueue_durable : forall pre c x o post q k,
+  let tl := pre ++ (c, x, o) :: post in
+  enqueued_by c x o (snd (step Sql c (after Sql init pre) x o)) q ->
+  In q (msgs (fst (step Sql c (after Sql init pre) x o))) ->
+  (length pre < k)%nat ->
+  (exists m, In m (msgs (recovered tl k)) /\ same_imm q m)
+  \/ exists pre2 c2 x2 o2 rest2 m, firstn (k - S (length pre)) post = pre2 ++ (c2, x2, o2) :: rest2
+       /\ same_imm q m /\ removal c2 x2 (snd (step Sql c2 (after Sql (fst (step Sql c (after Sql init pre) x o)) pre2) x2 o2)) m.
+Proof. exact acked_enqueue_durable. Qed.
+
+(** a committed message stays until legally removed - in particular acks, nacks and dead-letters that
+    committed are not undone (the message keeps the state they gave it until a later legal change) *)
+Theorem C01_committed_message_stays : forall fl s post q,
+  Inv s -> In q (msgs s) ->
+  (exists m, In m (msgs (after fl s post)) /\ same_imm q m)
+  \/ exists pre c x o rest m, post = pre ++ (c, x, o) :: rest /\ In m (msgs (after fl s pre)) /\ same_imm q m
+       /\ removal c x (snd (step fl c (after fl s pre) x o)) m.
+Proof. exact committed_message_stays. Qed.
+
+(** fan-out: the handler answers 202 only when every per-target enqueue micro-step succeeded, and
+    then all of them have been executed (committed) - a cut inside the program means no 202 *)
+Theorem C01_fanout_202_all_committed : forall fl s prog,
+  fst (fanout_status fl s prog) = 202 ->
+  snd (fanout_status fl s prog) = length prog
+  /\ forall pre c x o post, prog = pre ++ (c, x, o) :: post -> res_ok (snd (step fl c (after fl s pre) x o)) = true.
+Proof. exact fanout_202_all_committed. Qed.
+
+Example C01_witness :
+  let c := mkCfg 0 false 0 0 0 0 0 0 in
+  let e := mkEnq None 1%N 0%N None None 5%N 0%N 0%N in
+  let prog := fanout c 100 e [1%N; 2%N; 3%N] [11%N; 12%N; 13%N] in
+  fanout_status Sql init prog = (202, 3%nat)
+  /\ map m_target (msgs (recovered prog 2)) = [1%N; 2%N]       (* cut inside the program: two copies, no 202 *)
+  /\ map m_target (msgs (recovered prog 3)) = [1%N; 2%N; 3%N].
+Proof. vm_compute. repeat split. Qed.
+
+Print Assumptions C01_method_is_prune_then_core.
+Print Assumptions C01_recovered_well_formed.
+Print Assumptions C01_nothing_unsent.
+Print Assumptions C01_successful_enqueue_stores.
+Print Assumptions C01_acked_enqueue_durable.
+Print Assumptions C01_committed_message_stays.
+Print Assumptions C01_fanout_202_all_committed.
